@@ -1217,6 +1217,12 @@ class C07(Prop):
                           {"x": "p"}, data, mode)
                 yield iso("call", [{"t": "call", "name": "m", "args": [["int", 1]], "kwargs": [["k", ["int", 2]]]}],
                           [], {"a": "1", "c": "7", "kw": "2"}, data, mode)
+        # a call argument that has the name of an earlier parameter is the CALLER's variable of that name
+        for mode in ("sync", "async"):
+            yield iso("call", [{"t": "call", "name": "m", "args": [["str", "P"], ["path", "a", []]], "kwargs": []}],
+                      [], {"a": "P", "c": "GA"}, {"a": "GA"}, mode)
+            yield iso("call", [{"t": "call", "name": "m", "args": [["str", "P"]], "kwargs": [["c", ["path", "a", []]]]}],
+                      [], {"a": "P", "c": "GA"}, {"a": "GA"}, mode)
 
         # items of `render ... for` do not see one another's assignments
         bodies = [
